@@ -94,7 +94,8 @@ def replayLease (sc : LScn) (entries : List String) : RRes := Id.run do
             let refused := match lstep n s (.start i true) with
               | some s' => (s'.inst i).phase == .uninit
               | none => true
-            if !provErr && !refused then return bad "Provision failed, the model expects it to succeed"
+            let partErr := match c with | some c => c.partErr | none => false
+            if !provErr && !partErr && !refused then return bad "Provision failed, the model expects it to succeed"
       else if a == "S" then
         let res := f.getD 4 ""
         if sc.gen == 1 then
